@@ -153,6 +153,18 @@ CHECKS = {
         'note': TB + 'Not decided: tree validity after surgery, equality of cached and recomputed widths as values, panic freedom of the surgery.',
         'technique': 'dominance/pairing rule for cache invalidation, who-may-call, canonical-key rule, zone-domain abstract interpretation',
     },
+    'C09': {
+        'text': 'Static: the induction step of the representation invariant of both graph back ends, method by method and path by path, through an abstraction map '
+                'from each back end\'s concrete operations to neutral events: numv tracks occupied vdata slots, vdata/edata change in lock-step at the same vertex, every nume+-1 '
+                'comes with the two mirror half-edges of one type, set_edge_type writes both sides, failed operations change nothing, emptied slot <-> holes.push, hole taken <-> '
+                'slot filled, every empty slot pushed by a resize is a hole or filled, every new hash name ends below freshv, no representation write outside the recognised '
+                'operations; direct slot writes proved in bounds in a length domain and total methods free of unguarded expect/unwrap/index/panic; the two back ends agree on neutral '
+                'events per method, on the presence condition of Err, on the s<=t orientation filter of edges/find_edge and on skipping empty slots; pack moves vdata and edata together '
+                'under the occupancy test, fills vtab before advancing, truncates, clears holes and rewrites every stored neighbour id and every vertex-bearing field through vtab; derive(Clone, '
+                'PartialEq), owned private fields; accessor tables (trait defaults over VData, coordinate overrides, inputs/outputs/scalar accessors).',
+        'note': TB + 'The abstraction map (DESIGN Appendix A.3) is trusted. Not decided: behaviour under whole histories (the induction over the per-method steps is ours), self-loops/parallel edges, enumeration order.',
+        'technique': 'abstraction map to neutral events with per-path pairing invariants (effect paths), length-domain abstract interpretation for slot indices, sibling agreement on neutral events, renaming-consistency rule for pack, encapsulation and accessor tables',
+    },
     'C19': {
         'text': 'Static: in the call-graph closure of each seeded builder every random draw uses the builder\'s own rng field and no other entropy, '
                 'clock, environment source or RandomState iteration is reachable; seed() installs seed_from_u64(seed); every field setter writes '
